@@ -73,101 +73,118 @@ class Ref:
         op, rd, rs1, rs2, imm = self.instr_at(self.pc)
         a, b = self.x[rs1], self.x[rs2]
         npc = (self.pc + 4) & M32
-        sa, sb = s32(a), s32(b)
-        if op == "add": self.setx(rd, a + b)
-        elif op == "sub": self.setx(rd, a - b)
-        elif op == "sll": self.setx(rd, a << (b & 31))
-        elif op == "slt": self.setx(rd, int(sa < sb))
-        elif op == "sltu": self.setx(rd, int(a < b))
-        elif op == "xor": self.setx(rd, a ^ b)
-        elif op == "srl": self.setx(rd, a >> (b & 31))
-        elif op == "sra": self.setx(rd, sa >> (b & 31))
-        elif op == "or": self.setx(rd, a | b)
-        elif op == "and": self.setx(rd, a & b)
-        elif op == "mul": self.setx(rd, a * b)
-        elif op == "mulh": self.setx(rd, (sa * sb) >> 32)
-        elif op == "mulhu": self.setx(rd, (a * b) >> 32)
-        elif op == "mulhsu": self.setx(rd, (sa * b) >> 32)
-        elif op == "div":
-            if b == 0: self.setx(rd, M32)
-            elif sa == -(1 << 31) and sb == -1: self.setx(rd, 1 << 31)
-            else:
-                q = abs(sa) // abs(sb)
-                self.setx(rd, q if (sa < 0) == (sb < 0) else -q)
-        elif op == "divu": self.setx(rd, M32 if b == 0 else a // b)
-        elif op == "rem":
-            if b == 0: self.setx(rd, a)
-            elif sa == -(1 << 31) and sb == -1: self.setx(rd, 0)
-            else:
-                r = abs(sa) % abs(sb)
-                self.setx(rd, r if sa >= 0 else -r)
-        elif op == "remu": self.setx(rd, a if b == 0 else a % b)
-        elif op == "addi": self.setx(rd, a + imm)
-        elif op == "slti": self.setx(rd, int(sa < imm))
-        elif op == "sltiu": self.setx(rd, int(a < (imm & M32)))
-        elif op == "xori": self.setx(rd, a ^ (imm & M32))
-        elif op == "ori": self.setx(rd, a | (imm & M32))
-        elif op == "andi": self.setx(rd, a & (imm & M32))
-        elif op == "slli": self.setx(rd, a << (imm & 31))
-        elif op == "srli": self.setx(rd, a >> (imm & 31))
-        elif op == "srai": self.setx(rd, sa >> (imm & 31))
-        elif op in ("lb", "lh", "lw", "lbu", "lhu"):
-            n = {"lb": 1, "lbu": 1, "lh": 2, "lhu": 2, "lw": 4}[op]
-            ad = (a + imm) & M32
+        k = classify(op, a, b, imm, self.pc)
+        if k[0] == "reg":
+            self.setx(rd, k[1])
+        elif k[0] == "load":
+            _, n, signed, ad = k
             self.memops.append(("r", n, ad))
             v = self.load(ad, n)
-            if op == "lb" and v & 0x80: v -= 0x100
-            if op == "lh" and v & 0x8000: v -= 0x10000
+            if signed and v >> (8 * n - 1):
+                v -= 1 << (8 * n)
             self.setx(rd, v)
-        elif op in ("sb", "sh", "sw"):
-            n = {"sb": 1, "sh": 2, "sw": 4}[op]
-            ad = (a + imm) & M32
+        elif k[0] == "store":
+            _, n, ad, v = k
             self.memops.append(("w", n, ad))
-            self.store(ad, n, b)
-        elif op in ("beq", "bne", "blt", "bge", "bltu", "bgeu"):
-            t = {"beq": a == b, "bne": a != b, "blt": sa < sb, "bge": sa >= sb, "bltu": a < b, "bgeu": a >= b}[op]
-            if t:
-                npc = (self.pc + imm) & M32
+            self.store(ad, n, v)
+        elif k[0] == "branch":
+            if k[1]:
+                npc = k[2]
                 self.branches += 1
-        elif op == "lui": self.setx(rd, imm << 12)
-        elif op == "auipc": self.setx(rd, self.pc + (imm << 12))
-        elif op == "jal":
-            self.setx(rd, self.pc + 4)
-            npc = (self.pc + imm) & M32
-            self.procs += 1
-        elif op == "jalr":
-            t = (a + imm) & M32 & ~1
-            self.setx(rd, self.pc + 4)
-            npc = t
-        elif op == "ecall":
-            code, arg = self.x[17], self.x[10]
-            if code == 1: self.out += str(s32(arg))
-            elif code == 2: self.out += str(struct.unpack(">f", arg.to_bytes(4, "big"))[0])
-            elif code == 4:
-                ad = arg
-                s = ""
-                while True:
-                    if (ad & M32) < DATA:
-                        raise Fault(("addr", ad & M32))
-                    ch = self.mem.get(ad & M32, 0)
-                    if ch == 0:
-                        break
-                    s += chr(ch % 128)
-                    ad += 1
-                self.out += s
-            elif code == 11: self.out += chr(arg % 128)
-            elif code == 34: self.out += "0x%X" % arg
-            elif code == 35: self.out += bin(arg)
-            elif code == 36: self.out += str(arg)
-            elif code == 10: self.exit = 0
-            elif code == 93: self.exit = arg
-            else:
-                raise Fault(("ecall", code))
+        elif k[0] == "jump":
+            self.setx(rd, k[2])
+            npc = k[1]
+            if op == "jal":
+                self.procs += 1
+        elif k[0] == "ecall":
+            self.ecall()
         else:
             raise Fault(("unsupported", op))
         self.retired.append(self.pc)
         self.instrs += 1
         self.pc = npc
+
+    def ecall(self):
+        code, arg = self.x[17], self.x[10]
+        if code == 1: self.out += str(s32(arg))
+        elif code == 2: self.out += str(struct.unpack(">f", arg.to_bytes(4, "big"))[0])
+        elif code == 4:
+            ad = arg
+            s = ""
+            while True:
+                if (ad & M32) < DATA:
+                    raise Fault(("addr", ad & M32))
+                ch = self.mem.get(ad & M32, 0)
+                if ch == 0:
+                    break
+                s += chr(ch % 128)
+                ad += 1
+            self.out += s
+        elif code == 11: self.out += chr(arg % 128)
+        elif code == 34: self.out += "0x%X" % arg
+        elif code == 35: self.out += bin(arg)
+        elif code == 36: self.out += str(arg)
+        elif code == 10: self.exit = 0
+        elif code == 93: self.exit = arg
+        else:
+            raise Fault(("ecall", code))
+
+
+def classify(op, a, b, imm, pc):
+    """What the instruction does, from its operand VALUES (written from the unprivileged spec):
+    ('reg', value) | ('load', bytes, signed, address) | ('store', bytes, address, value) |
+    ('branch', taken, target) | ('jump', target, link) | ('ecall',) | ('unsupported',)"""
+    sa, sb = s32(a), s32(b)
+    R = lambda v: ("reg", v & M32)
+    if op == "add": return R(a + b)
+    if op == "sub": return R(a - b)
+    if op == "sll": return R(a << (b & 31))
+    if op == "slt": return R(int(sa < sb))
+    if op == "sltu": return R(int(a < b))
+    if op == "xor": return R(a ^ b)
+    if op == "srl": return R(a >> (b & 31))
+    if op == "sra": return R(sa >> (b & 31))
+    if op == "or": return R(a | b)
+    if op == "and": return R(a & b)
+    if op == "mul": return R(a * b)
+    if op == "mulh": return R((sa * sb) >> 32)
+    if op == "mulhu": return R((a * b) >> 32)
+    if op == "mulhsu": return R((sa * b) >> 32)
+    if op == "div":
+        if b == 0: return R(M32)
+        if sa == -(1 << 31) and sb == -1: return R(1 << 31)
+        q = abs(sa) // abs(sb)
+        return R(q if (sa < 0) == (sb < 0) else -q)
+    if op == "divu": return R(M32 if b == 0 else a // b)
+    if op == "rem":
+        if b == 0: return R(a)
+        if sa == -(1 << 31) and sb == -1: return R(0)
+        r = abs(sa) % abs(sb)
+        return R(r if sa >= 0 else -r)
+    if op == "remu": return R(a if b == 0 else a % b)
+    if op == "addi": return R(a + imm)
+    if op == "slti": return R(int(sa < imm))
+    if op == "sltiu": return R(int(a < (imm & M32)))
+    if op == "xori": return R(a ^ (imm & M32))
+    if op == "ori": return R(a | (imm & M32))
+    if op == "andi": return R(a & (imm & M32))
+    if op == "slli": return R(a << (imm & 31))
+    if op == "srli": return R(a >> (imm & 31))
+    if op == "srai": return R(sa >> (imm & 31))
+    if op in ("lb", "lh", "lw", "lbu", "lhu"):
+        return ("load", {"lb": 1, "lbu": 1, "lh": 2, "lhu": 2, "lw": 4}[op], op in ("lb", "lh"), (a + imm) & M32)
+    if op in ("sb", "sh", "sw"):
+        n = {"sb": 1, "sh": 2, "sw": 4}[op]
+        return ("store", n, (a + imm) & M32, b & ((1 << (8 * n)) - 1))
+    if op in ("beq", "bne", "blt", "bge", "bltu", "bgeu"):
+        t = {"beq": a == b, "bne": a != b, "blt": sa < sb, "bge": sa >= sb, "bltu": a < b, "bgeu": a >= b}[op]
+        return ("branch", t, (pc + imm) & M32)
+    if op == "lui": return R(imm << 12)
+    if op == "auipc": return R(pc + (imm << 12))
+    if op == "jal": return ("jump", (pc + imm) & M32, (pc + 4) & M32)
+    if op == "jalr": return ("jump", (a + imm) & M32 & ~1, (pc + 4) & M32)
+    if op == "ecall": return ("ecall",)
+    return ("unsupported",)
 
 
 def parse_prog(toks):
